@@ -24,7 +24,12 @@ func init() {
 		Run: func(c *Ctx) {
 			c.P.Rule = "random families"
 			c.Rapid("lr0", c.Pick(10000, 100000), func(t *rapid.T) {
-				gc := DrawGrammar(t, []string{"uniform", "productive", "nullable", "separators", "lalr", "uniform-small", "bigauto"})
+				fams := []string{"uniform", "productive", "nullable", "separators", "lalr", "uniform-small"}
+				if rapid.IntRange(0, c.Pick(399, 99)).Draw(t, "heavy") == 0 {
+					// large automata are expensive: one case in 400 (quick) / 100 (thorough)
+					fams = []string{"bigauto", "manysyms", "hugerule"}
+				}
+				gc := DrawGrammar(t, fams)
 				if rapid.IntRange(0, 2).Draw(t, "rename") == 0 {
 					// names must not matter, not even a user nonterminal called "start"
 					spec.WithNames(t, gc.Spec)
